@@ -267,6 +267,7 @@ func (eq *externalBaseQueue) Purge() {
 	if _, ok := eq.q.(IAcknowledgeable); !ok {
 		for n := eq.q.Len(); n > 0; n-- {
 			val, ok := eq.q.Dequeue()
+			vhook("purge.deq", val, ok)
 
 			if !ok {
 				break
